@@ -7,7 +7,7 @@ import impl, s_tree as T
 
 def gen_case(g, prop):
     dname = g.choice(['in', 'my.proj', 'd-x', 'Src'])
-    children = T.gen_dir(g, 0, max_depth=3, want_cmake=True)
+    children = T.gen_dir(g, 0, max_depth=3, want_cmake=True, k4=(prop == 'C17' and g.random() < 0.3))
     st = dict(recursive=g.random() < 0.7, auto_exclude=g.random() < 0.6, prefix=g.choice([None, None, 'PFX', 'p.q']),
               sep='.', ext_titles=False, ext_modules=False, headers=None, cfg=None)
     pats = []
